@@ -321,6 +321,7 @@ func (w *World) RunScheduler() (RunResult, error) {
 		w.mu.Unlock()
 		res := RunResult{Steps: s.steps, Advances: s.advances, SimTime: s.simTime, PickHash: s.pickHash, Tasks: len(s.tasks)}
 		if clientsLeft == 0 {
+			res.WaitFor = w.waitFor() // tasks that outlive the clients (e.g. after Close): a leak for the harness to judge
 			return res, nil
 		}
 		if stopped {
